@@ -47,9 +47,13 @@ fn try_find_recurse(e_s: ExprNodeId, name: Symbol) -> bool {
             try_find_recurse(record, name) || fields.iter().any(|f| try_find_recurse(f.expr, name))
         }
         Expr::FieldAccess(record, _field) => try_find_recurse(record, name),
-        Expr::BinOp(_, _, _) => unreachable!(),
-        Expr::UniOp(_, _) => unreachable!(),
-        Expr::MacroExpand(_, _) => unreachable!(),
+        // Operators and macro calls are desugared before this pass, but the error AST of a malformed
+        // text (e.g. an operator inside an incomplete record `{m=..+`) can still contain them.
+        Expr::BinOp(lhs, _, rhs) => try_find_recurse(lhs, name) || try_find_recurse(rhs, name),
+        Expr::UniOp(_, e) => try_find_recurse(e, name),
+        Expr::MacroExpand(callee, args) => {
+            try_find_recurse(callee, name) || args.iter().any(|a| try_find_recurse(*a, name))
+        }
         Expr::Paren(inner) => try_find_recurse(inner, name),
         Expr::Match(scrutinee, arms) => {
             try_find_recurse(scrutinee, name)
@@ -135,9 +139,9 @@ pub fn convert_recurse(e_s: ExprNodeId, file_path: PathBuf) -> ExprNodeId {
                 })
                 .collect(),
         ),
-        Expr::BinOp(_, _, _) => unreachable!(),
-        Expr::UniOp(_, _) => unreachable!(),
-        Expr::MacroExpand(_, _) => unreachable!(),
+        Expr::BinOp(lhs, op, rhs) => Expr::BinOp(convert(lhs), op, convert(rhs)),
+        Expr::UniOp(op, e) => Expr::UniOp(op, convert(e)),
+        Expr::MacroExpand(callee, args) => Expr::MacroExpand(convert(callee), convert_vec(args)),
         Expr::Paren(inner) => return convert_recurse(inner, file_path),
         Expr::Literal(_) | Expr::Var(_) | Expr::Error | Expr::QualifiedVar(_) => e_s.to_expr(),
     };
